@@ -22,7 +22,7 @@ Correspondence part (this file):
   * tolerance *tests* (labelled): Trotter error order, exp-solver final state, RK convergence order.
 """
 import os as _os
-STATIC = ["C16/Props", "C16/History", "Base/TrigMat"]
+STATIC = ["C16/Props", "C16/PropsSeries", "C16/History", "Base/TrigMat"]
 import itertools
 import math
 import random
@@ -733,6 +733,7 @@ def run_histories(run, rng):
     from qibo.symbols import X, Z
     hdr = HEADER.replace("Local Open Scope Z_scope.", "Local Open Scope Q_scope.")
     items, meta = [], {}
+    reported = set()
     count = 6 if run.tier == "quick" else 40
     for k in range(count):
         kind = ["exp", "rk4", "trotter"][k % 3]
@@ -765,15 +766,28 @@ def run_histories(run, rng):
                 built.append((t, np.array(r.matrix)))
             return r
         AD.BaseAdiabaticHamiltonian.__call__ = spy_call
+        from qibo.hamiltonians import terms as TT
+        orig_tt = TT.TermGroup.to_term
+        coefs = []
+
+        def spy_tt(self, coefficients={}, _o=orig_tt):
+            if coefficients:
+                c = (args[-1] if args else None, float(coefficients[h0]), float(coefficients[h1]))
+                if not coefs or coefs[-1] != c:
+                    coefs.append(c)
+            return _o(self, coefficients)
+        TT.TermGroup.to_term = spy_tt
         try:
-            runs_args, runs_built = [], []
+            runs_args, runs_built, runs_coefs = [], [], []
             for T in Ts:
-                del args[:], built[:]
+                del args[:], built[:], coefs[:]
                 ev(final_time=T)
                 runs_args.append(list(args))
                 runs_built.append(list(built))
+                runs_coefs.append(list(coefs))
         finally:
             AD.BaseAdiabaticHamiltonian.__call__ = orig_call
+            TT.TermGroup.to_term = orig_tt
         times_fn = {"exp": "exp_eval_times", "rk4": "rk4_eval_times", "trotter": "trotter_eval_times"}[kind]
         runs_coq = "[" + ";".join(f"({qq(T)}, {times_fn} 0 {qq(T)} {qq(dt)})" for T in Ts) + "]"
         obs = "[" + ";".join(qlist(a) for a in runs_args) + "]"
@@ -784,19 +798,36 @@ def run_histories(run, rng):
                         "schedule_arguments_of_last_run": runs_args[-1][:8]})
         items.append((lab, f"list_eqb qlist_eqb (ad_history None {runs_coq}) {obs}"))
         meta[lab] = {"mechanism": "history", "kind": kind, "dt": dt, "final_times": Ts, "schedule_arguments_per_run": runs_args}
-        # the Hamiltonians actually built: (1 - s) h0 + s h1 with s = schedule(argument), exact dyadic arithmetic
+        # the Hamiltonians actually built vs the model  den * ((1 - s) h0 + s h1),  s = (t/T)^p = num/den  (exact, in Coq)
         if kind != "trotter":
+            conj = []
             for T, bl in zip(Ts, runs_built):
                 for (t, M) in bl:
-                    if t == 0:
-                        want = np.array(h0.matrix)
-                    else:
-                        sv = (Fraction(t) / Fraction(T)) ** power
-                        want = float(1 - sv) * np.array(h0.matrix) + float(sv) * np.array(h1.matrix)
-                    if not np.array_equal(M, want):
-                        run.find(f"adiabatic_total_time:{kind}:dt={dt}:T={Ts}", "the interpolated Hamiltonian of a later execution is not (1 - s(t/T)) h0 + s(t/T) h1 for the final time T of THAT execution",
-                                 {"mechanism": "history", "kind": kind, "dt": dt, "final_times": Ts, "run_T": T, "t": t, "built": M.tolist(), "expected": want.tolist()})
-                        break
+                    sv = (Fraction(t) / Fraction(T)) ** power if t != 0 else Fraction(0)
+                    try:
+                        conj.append(f"meqb (ad_ham {sv.numerator}%Z {sv.denominator}%Z {cmat(h0.matrix)}%Z {cmat(h1.matrix)}%Z) {cmat(sv.denominator * M)}%Z")
+                    except Inexact:
+                        # den * M is not even integral: certainly not den * ((1 - s) h0 + s h1)
+                        if f"{kind}:{dt}:{Ts}" not in reported:
+                            reported.add(f"{kind}:{dt}:{Ts}")
+                            run.find(f"adiabatic_interpolation:{kind}:dt={dt}:T={Ts}",
+                                 "the Hamiltonian used at a queried time is not (1 - s(t/T)) h0 + s(t/T) h1 with the final time T of that execution",
+                                 {"mechanism": "history", "kind": kind, "dt": dt, "final_times": Ts, "run_T": T, "t": t, "schedule": f"x**{power}", "built": M.tolist()})
+                        conj.append("false")
+            blab = f"built{k}:{kind}"
+            items.append((blab, "(" + " && ".join(conj or ["true"]) + ")%bool"))
+            meta[blab] = {"mechanism": "history", "kind": kind, "dt": dt, "final_times": Ts, "schedule": f"x**{power}",
+                          "built": [[(t, M.tolist()) for t, M in bl][:4] for bl in runs_built]}
+        else:
+            # Trotter: the coefficients {h0: 1 - st, h1: st} handed to TermGroup.to_term by circuit(dt, t)
+            conj = []
+            for T, cl in zip(Ts, runs_coefs):
+                for (x, a0, a1) in cl:
+                    mdl = f"ad_coeffs {power}%nat {qq(x)}" if x is not None else "[1; 0]"
+                    conj.append(f"qlist_eqb ({mdl}) [{qq(a0)}; {qq(a1)}]")
+            blab = f"built{k}:{kind}"
+            items.append((blab, "(" + " && ".join(conj or ["true"]) + ")%bool"))
+            meta[blab] = {"mechanism": "history", "kind": kind, "dt": dt, "final_times": Ts, "schedule": f"x**{power}", "coefficients": [cl[:6] for cl in runs_coefs]}
     # a re-used StateEvolution with a time-dependent Hamiltonian: evaluation times of H(t) per execution
     for k in range(4 if run.tier == "quick" else 20):
         solver = ["exp", "rk4"][k % 2]
@@ -830,7 +861,10 @@ def run_histories(run, rng):
     for lab, _ in items:
         if not res[lab]:
             m = meta[lab]
-            if lab.startswith("hist"):
+            if lab.startswith("built"):
+                run.find(f"adiabatic_interpolation:{m['kind']}:dt={m['dt']}:T={m['final_times']}",
+                         "the Hamiltonian / Trotter coefficients used at a queried time are not (1 - s(t/T)) h0 + s(t/T) h1 with the final time T of that execution", m)
+            elif lab.startswith("hist"):
                 run.find(f"adiabatic_total_time:{m['kind']}:dt={m['dt']}:T={m['final_times']}",
                          "AdiabaticEvolution executed several times on one object: the schedule arguments t/T of a later run do not use that run's final time", m)
             else:
@@ -968,29 +1002,32 @@ def main(run):
                                "without -i); they are not statements about the current tree")
     run.not_proved += ["nsteps_ok for ALL float triples whose real quotient is within 1/2 of an integer (needs the IEEE-754 axioms of Coq's Floats); proved: the bounded decimal grid of nsteps_ok_bounded; beyond it bit-exact comparison per run",
                        "composition of embeddings (embedded merge_spec = sum of embedded members on n qubits): checked exactly per case (g*:merge_spec); merge = merge_spec itself is proved (merge_ok)",
-                       "trotter_commuting_exact for ALL commuting families (needs the matrix exponential); proved per listed instance for all dt",
-                       "trotter_third_order (analytic O(dt^3) bound: needs operator norms / BCH)",
+                       "rk45 with a time-dependent Hamiltonian: the analogue of rk4_timedep_order is NOT proved (the ideal-membership certificate is 0.57 MB already for linear f, beyond what `ring` checks in reasonable time); covered by the exact stage-structure correspondence, rk45_taylor_ok (constant H) and a convergence test",
+                       "analytic error bounds (|U_trotter - exp| <= C dt^3, global O(dt^2)): need operator norms; what IS proved: agreement of all formal-series coefficients up to dt^2 for all generators, all coefficients for commuting ones (PropsSeries.v), and the formal n-step statement",
                        "convergence of RK / Trotter solvers as limits", "adiabatic accuracy"]
     return run.finish(level="proof", rule=RULE)
 
 
 def static_obligations(run):
-    p = "C16/Props.v"
-    if not _os.path.exists(_os.path.join(vcore.THEORIES, p)):
-        run.not_proved.append("C16/Props.v missing")
-        return
-    names = vcore.props_theorems(p)
-    ok, res = vcore.static_assumptions("C16/Props")
-    for nm in names:
-        if nm.endswith("_refuted"):
-            run.refuted.append(nm[: -len("_refuted")])
-        run.oblige(nm, ok and nm in res, "static theorem (coq/theories/C16/Props.v)")
-        if ok and nm in res and not res[nm].startswith("Closed"):
-            for m in re.finditer(r"([A-Za-z_][\w.]*)\s*:", res[nm]):
-                if m.group(1) != "Axioms":
-                    run.axioms.add(m.group(1))
-    run.checker_cmds.append("make -C coq theories/C16/Props.vo ; coqc _build/assumptions/C16_Props_pa.v")
-    run.notes["static_theorems"] = res
+    allres = {}
+    for theory in ("C16/Props", "C16/PropsSeries"):
+        p = theory + ".v"
+        if not _os.path.exists(_os.path.join(vcore.THEORIES, p)):
+            run.not_proved.append(p + " missing")
+            continue
+        names = vcore.props_theorems(p)
+        ok, res = vcore.static_assumptions(theory)
+        for nm in names:
+            if nm.endswith("_refuted"):
+                run.refuted.append(nm[: -len("_refuted")])
+            run.oblige(nm, ok and nm in res, f"static theorem (coq/theories/{p})")
+            if ok and nm in res and not res[nm].startswith("Closed"):
+                for m in re.finditer(r"([A-Za-z_][\w.]*)\s*:", res[nm]):
+                    if m.group(1) != "Axioms":
+                        run.axioms.add(m.group(1))
+        run.checker_cmds.append(f"make -C coq theories/{theory}.vo ; coqc _build/assumptions/{theory.replace('/', '_')}_pa.v")
+        allres.update(res)
+    run.notes["static_theorems"] = allres
 
 
 def replay(run, data):
@@ -1011,7 +1048,7 @@ def replay(run, data):
     if key.startswith("rk_stage") or key.startswith("rk_times"):
         run_rk_timedep(run, random.Random(0))
         return run.finish(level="proof", rule="replay of one recorded case")
-    if key.startswith("adiabatic_total_time") or key.startswith("evolution_reuse"):
+    if key.startswith("adiabatic_total_time") or key.startswith("adiabatic_interpolation") or key.startswith("evolution_reuse"):
         run_histories(run, random.Random(run.seed))
         return run.finish(level="proof", rule="replay of the history generator (same seed)")
     if key.startswith("rk_order"):
